@@ -81,7 +81,7 @@ class Run:
         m = re.search(r"Invariant (\S+) is violated", out)
         if m:
             r["violated"] = m.group(1)
-        if "Temporal properties were violated" in out:
+        if re.search(r"Temporal propert(y|ies) .*violated", out):
             r["violated"] = "temporal"
         return r
 
